@@ -1,8 +1,15 @@
 """C04 — parallel string sort: no use of a self-deleting step after a release point,
 add-before-enqueue, counters decided by their own RMW, phase arming, completion barrier,
-copy_back on all paths of the leaf sorter."""
-from engine import ir, dtable, match, cfg as cfgm
+copy_back on all paths of the leaf sorter.
+
+Verdict policy of this file: a violation is reported only on positive evidence (a CFG path, a row of a small
+decision table, a counted registration balance, a constant mask that differs from the builder's); a shape that is
+not understood raises dtable.Undecidable (exit 2).  Locals are never addressed by name: never-written locals and
+reference aliases are resolved to their initialisers."""
+from engine import ir, dtable, match, cfg as cfgm, mustfact
 from engine.ir import kids, strip_casts, const_int, ref_of
+
+Undecidable = dtable.Undecidable
 
 NS = "tlx::sort_strings_detail::"
 BIG = NS + "PS5BigSortStep"
@@ -12,16 +19,167 @@ ORDER = {0: "relaxed", 1: "consume", 2: "acquire", 3: "release", 4: "acq_rel", 5
 # functions that run while the anonymous handle (substep_add at the start of run()/distribute_finished()) is held: enqueues in them cannot
 # complete the step (frozen table, confirmed by reading: run() brackets sort_sample_sort/sort_mkqs_cache and their *_free_work helpers)
 UNDER_HANDLE = ("run", "sort_sample_sort", "sample_sort_free_work", "sort_mkqs_cache", "mkqs_free_work")
+# job entry points that take the anonymous handle themselves (frozen table)
+HANDLE_FNS = ("run", "distribute_finished")
+
+WRAPPERS = ("ImplicitCastExpr", "CStyleCastExpr", "CXXStaticCastExpr", "CXXFunctionalCastExpr", "CXXReinterpretCastExpr", "CXXConstCastExpr",
+            "ParenExpr", "MaterializeTemporaryExpr", "CXXBindTemporaryExpr", "ExprWithCleanups", "ConstantExpr")
+ASSIGN_OPS = ("=", "+=", "-=", "*=", "/=", "%=", "&=", "|=", "^=", "<<=", ">>=")
+WRITING_STD = ("swap", "exchange", "tie", "iter_swap")
+
+
+# ---------------------------------------------------------------------------------------------- shared helpers
+def peel(n):
+    """looks through casts, parentheses, temporaries and same-type copies"""
+    while n is not None:
+        m = strip_casts(n)
+        if m is not None and m["k"] in WRAPPERS and kids(m):
+            m = kids(m)[0]
+        if m is n:
+            return n
+        n = m
+    return n
+
+
+def _locals(fn):
+    c = getattr(fn, "_c04_locals", None)
+    if c is None:
+        c = {}
+        uses = {}
+        captured = set()
+        for x in fn.nodes():
+            if x["k"] == "VarDecl" and "did" in x:
+                c[x["did"]] = x
+            elif x["k"] == "DeclRefExpr":
+                uses.setdefault(x["ref"]["id"], []).append(x)
+            elif x["k"] == "LambdaExpr":
+                for cp in x.get("captures", []):
+                    if cp.get("byref") and "id" in cp:
+                        captured.add(cp["id"])
+        fn._c04_locals, fn._c04_uses, fn._c04_captured = c, uses, captured
+    return c
+
+
+def uses_of(fn, did):
+    _locals(fn)
+    return fn._c04_uses.get(did, [])
+
+
+def _is_write(fn, use):
+    """the DeclRefExpr `use` is (possibly) written through: assignment target, ++/--, address taken, bound to a
+    non-const reference parameter of a project function, handed to a std function that writes its arguments"""
+    e = use
+    par = fn.parent(e)
+    while par is not None and par["k"] in WRAPPERS:
+        e, par = par, fn.parent(par)
+    if par is None:
+        return False
+    k = par["k"]
+    if k in ("BinaryOperator", "CompoundAssignOperator") and par.get("op") in ASSIGN_OPS:
+        return kids(par)[0] is e
+    if k == "UnaryOperator" and par.get("op") in ("++", "--", "&"):
+        return True
+    if "callee" in par:
+        if k == "CXXOperatorCallExpr" and par.get("op") in ASSIGN_OPS + ("++", "--") and kids(par) and kids(par)[0] is e:
+            return True
+        if par["callee"]["name"] in WRITING_STD:
+            return True
+        cal = fn.tu.by_did.get(par["callee"].get("did"))
+        if cal is not None:
+            args = kids(par)[1:] if par.get("member_call") or par.get("op") == "()" else kids(par)
+            for a, p in zip(args, cal.params):
+                if a is e:
+                    t = (p.get("ty") or "").strip()
+                    if t.endswith("&") and not t.endswith("&&") and not t.startswith("const "):
+                        return True
+    return False
+
+
+def stable_local(fn, did):
+    """VarDecl of a local that is initialised once and never written afterwards (a reference alias, a const local, or a
+    local all of whose uses are reads); None otherwise"""
+    v = _locals(fn).get(did)
+    if v is None or not kids(v) or kids(v)[0] is None:
+        return None
+    memo = fn.__dict__.setdefault("_c04_stable", {})
+    if did not in memo:
+        ty = (v.get("ty") or "").strip()
+        if v.get("isref") or ty.endswith("&"):
+            ok = True
+        elif did in fn._c04_captured:
+            ok = False
+        else:
+            ok = not any(_is_write(fn, u) for u in uses_of(fn, did))
+        memo[did] = ok
+    return v if memo[did] else None
+
+
+def resolve(fn, e, depth=0):
+    """e with wrappers removed and never-written locals / reference aliases replaced by their initialisers"""
+    e = peel(e)
+    while e is not None and e["k"] == "DeclRefExpr" and depth < 8:
+        v = stable_local(fn, e["ref"]["id"])
+        if v is None:
+            break
+        e = peel(kids(v)[0])
+        depth += 1
+    return e
+
+
+def field_r(fn, e):
+    """name of the member of *this that e denotes (through aliases), else None"""
+    return match.this_field(resolve(fn, e))
+
+
+def where(fn, n):
+    return fn.nloc(n) if n is not None else fn.loc
 
 
 def this_member_access(x):
-    """x reads/writes a member of *this (implicit or explicit this->), incl. member calls"""
+    """x reads/writes a member of *this (implicit or explicit this->)"""
     if x["k"] == "MemberExpr" and kids(x):
         b = strip_casts(kids(x)[0])
         return b is not None and b["k"] == "This"
-    if x["k"] == "This":
-        return True
     return False
+
+
+def alias_of_own_member(fn, x):
+    """x names a reference local bound to a (non-reference) data member of *this: reading it reads the object's own storage"""
+    if x["k"] != "DeclRefExpr":
+        return None
+    v = _locals(fn).get(x["ref"]["id"])
+    if v is None or not (v.get("isref") or (v.get("ty") or "").strip().endswith("&")) or not kids(v):
+        return None
+    r = resolve(fn, kids(v)[0])
+    if r is None or not this_member_access(r):
+        return None
+    tys = getattr(fn.tu, "_c04_field_ty", None)
+    if tys is None:
+        tys = fn.tu._c04_field_ty = {f["mid"]: (f.get("ty") or "") for rec in fn.tu.records for f in rec.get("fields", []) if "mid" in f}
+    t = tys.get(r.get("mid"))
+    if t is None or t.strip().endswith("&"):
+        return None          # a reference member: the alias names an object outside *this
+    return r["member"]
+
+
+def this_use(fn, x):
+    """for a `This` node: 'member' (base of a member expression, judged there), 'deref' (object of a member call, *this,
+    delete this), 'escape' (the pointer value is handed on)"""
+    e = x
+    par = fn.parent(e)
+    while par is not None and par["k"] in WRAPPERS:
+        e, par = par, fn.parent(par)
+    if par is None:
+        return "escape"
+    if par["k"] == "MemberExpr":
+        return "member"
+    if "callee" in par and par.get("member_call") and kids(par) and kids(par)[0] is e:
+        return "deref"
+    if par["k"] == "UnaryOperator" and par.get("op") == "*":
+        return "deref"
+    if par["k"] == "CXXDeleteExpr":
+        return "deref"
+    return "escape"
 
 
 def inst(fn):
@@ -32,9 +190,9 @@ def inst(fn):
 
 
 def is_call(x, name, on_this=True):
-    if "callee" in x and x["callee"]["name"] == name and x.get("member_call"):
+    if "callee" in x and x["callee"]["name"] == name and x.get("member_call") and kids(x):
         o = strip_casts(kids(x)[0])
-        return (o["k"] == "This") if on_this else True
+        return (o is not None and o["k"] == "This") if on_this else True
     return False
 
 
@@ -50,170 +208,700 @@ def ctx_enqueue(x):
     return "callee" in x and x["callee"]["name"] == "enqueue" and x.get("member_call") and "PS5Context" in (x["callee"].get("record") or "")
 
 
+def reach_after(g, p, blocked_edges=()):
+    """blocks reachable strictly after position p when the given (block, successor) edges are never taken"""
+    be = set(blocked_edges)
+    seen = set()
+    work = [s for s in g.succ[p[0]] if (p[0], s) not in be]
+    while work:
+        b = work.pop()
+        if b in seen:
+            continue
+        seen.add(b)
+        work.extend(s for s in g.succ[b] if (b, s) not in be)
+    return seen
+
+
+def reaches(g, p, q, seen):
+    return (p[0] == q[0] and q[1] > p[1]) or q[0] in seen
+
+
+# ---------------------------------------------------------------------------------------------- atomic read-modify-writes and their results
+def atomic_rmw(fn, x):
+    """(field, '+'|'-', 'new'|'old', amount, order) for an atomic read-modify-write of a member of *this:
+    ++f --f f++ f-- f += n f -= n f.fetch_add(n[, order]) f.fetch_sub(n[, order]); amount/order None if not constant"""
+    if "callee" not in x or not kids(x):
+        return None
+    if "atomic" not in (x["callee"].get("qname") or ""):
+        return None
+    f = field_r(fn, kids(x)[0])
+    if not f:
+        return None
+    nm = x["callee"]["name"]
+    if nm in ("operator--", "operator++"):
+        return f, ("-" if nm == "operator--" else "+"), ("old" if len(kids(x)) == 2 else "new"), 1, 5
+    if nm in ("operator-=", "operator+=") and len(kids(x)) == 2:
+        return f, ("-" if nm == "operator-=" else "+"), "new", const_int(kids(x)[1]), 5
+    if nm in ("fetch_sub", "fetch_add"):
+        a = kids(x)[1:]
+        o = 5
+        if len(a) > 1 and a[1] is not None and a[1]["k"] != "DefaultArg":
+            o = const_int(a[1])
+        return f, ("-" if nm == "fetch_sub" else "+"), "old", (const_int(a[0]) if a else None), o
+    return None
+
+
+_CMP = {"==": lambda a, b: a == b, "!=": lambda a, b: a != b, "<": lambda a, b: a < b, "<=": lambda a, b: a <= b,
+        ">": lambda a, b: a > b, ">=": lambda a, b: a >= b, "+": lambda a, b: a + b, "-": lambda a, b: a - b}
+
+
+class ResultUse:
+    """where the value of one expression goes inside its function: branch conditions (with the function value -> condition
+    value), returned to the callers (one ResultUse per call site in `subs`), discarded, or used in a way that is not understood"""
+
+    def __init__(self, fn, x, f=None, depth=0):
+        self.fn = fn
+        self.map = {}           # node id -> function (value of x) -> value of that node
+        self.discarded = []
+        self.unknown = []       # nodes
+        self.returned = False
+        self.tested = False     # operand of a condition / && / ||
+        self.subs = []
+        self._climb(x, f or (lambda v: v), depth)
+
+    def _climb(self, e, f, depth):
+        fn = self.fn
+        while True:
+            self.map[e["id"]] = f
+            par = fn.parent(e)
+            if par is None:
+                self.unknown.append(e)
+                return
+            k = par["k"]
+            if k in WRAPPERS:
+                if par.get("cast") == "ToVoid":
+                    self.discarded.append(e)
+                    return
+                if par.get("cast") == "IntegralToBoolean":
+                    f = (lambda g: lambda v: g(v) != 0)(f)
+                e = par
+                continue
+            if k == "UnaryOperator" and par.get("op") == "!":
+                f = (lambda g: lambda v: not g(v))(f)
+                e = par
+                continue
+            if k == "BinaryOperator" and par.get("op") in ("&&", "||"):
+                self.tested = True
+                return
+            if k == "BinaryOperator" and par.get("op") in _CMP and len(kids(par)) == 2:
+                l, r = kids(par)
+                c = const_int(r if l is e else l)
+                if c is None:
+                    self.unknown.append(par)
+                    return
+                op = _CMP[par["op"]]
+                f = (lambda g, op, c: lambda v: op(g(v), c))(f, op, c) if l is e else (lambda g, op, c: lambda v: op(c, g(v)))(f, op, c)
+                e = par
+                continue
+            if k in ("IfStmt", "WhileStmt", "ConditionalOperator"):
+                if kids(par)[0] is e:
+                    self.tested = True
+                elif k == "ConditionalOperator":
+                    self.unknown.append(par)
+                else:
+                    self.discarded.append(e)
+                return
+            if k in ("DoStmt", "ForStmt"):
+                if kids(par)[1] is e:
+                    self.tested = True
+                else:
+                    self.discarded.append(e)
+                return
+            if k in ("CompoundStmt", "CaseStmt", "DefaultStmt", "LabelStmt", "AttributedStmt", "DeclStmt"):
+                self.discarded.append(e)
+                return
+            if k == "VarDecl":
+                if stable_local(fn, par["did"]) is None or depth > 4:
+                    self.unknown.append(par)
+                    return
+                us = uses_of(fn, par["did"])
+                if not us:
+                    self.discarded.append(e)
+                for u in us:
+                    self._climb(u, f, depth + 1)
+                return
+            if k == "ReturnStmt":
+                self.returned = True
+                sites = [(g, c) for g in fn.tu.functions if g.body is not None and g is not fn for c in g.nodes()
+                         if "callee" in c and c["callee"].get("did") == fn.did]
+                if not sites or depth > 2:
+                    self.unknown.append(par)
+                    return
+                for g, c in sites:
+                    self.subs.append(ResultUse(g, c, f, depth + 3))
+                return
+            self.unknown.append(par)
+            return
+
+    def branches(self, g):
+        """[(block, function value -> condition value)] for the branching blocks of this function's CFG whose condition is built from the value"""
+        out = []
+        for bid, b in g.blocks.items():
+            ss = b.get("succ", [])
+            if len(ss) == 2 and ss[0] is not None and ss[1] is not None and b.get("cond") in self.map and b.get("termk") != "SwitchStmt":
+                out.append((bid, self.map[b["cond"]]))
+        return out
+
+    def verdict(self, last):
+        """'decided': a branch separates the value `last` from the larger ones (in every caller, if the value is returned);
+        'undecided': it is discarded or only tested in ways that treat the last job like another one; ('unknown', node, fn)"""
+        if self.fn.cfg:
+            brs = self.branches(cfgm.CFG(self.fn))
+            if any(decisive(f, last) is not None for bid, f in brs):
+                return "decided"
+        else:
+            brs = []
+        if self.subs:
+            vs = [s.verdict(last) for s in self.subs]
+            for v in vs:
+                if isinstance(v, tuple):
+                    return v
+            if all(v == "decided" for v in vs):
+                return "decided"
+            if not self.unknown:
+                return "undecided"
+        if self.unknown:
+            return ("unknown", self.unknown[0], self.fn)
+        if self.tested and not brs:
+            return ("unknown", self.fn.body, self.fn)
+        return "undecided"
+
+
+def decisive(f, last):
+    """True/False: the condition has that value exactly when the decrement yielded `last` (this job was the last one);
+    None: the condition does not separate the last job from the others"""
+    try:
+        t = bool(f(last))
+        others = [bool(f(last + k)) for k in (1, 2, 3, 7, 1000)]
+    except Exception:
+        return None
+    if all(o != t for o in others):
+        return t
+    return None
+
+
+def last_value(kind, amount):
+    """value the decrement expression yields for the job that brings the counter to zero"""
+    return 0 if kind == "new" else amount
+
+
+# ---------------------------------------------------------------------------------------------- USE-AFTER-RELEASE
+_RAW = {}
+
+
+def raw_function(fn):
+    """the same function as the extractor delivered it (before engine/normalize.py inlined new helpers and replaced new locals
+    by their initialisers); None if it cannot be found"""
+    if "tu" not in _RAW:
+        import os
+        old = os.environ.get("VERIF_NO_NORMALIZE")
+        os.environ["VERIF_NO_NORMALIZE"] = "1"
+        try:
+            _RAW["tu"] = ir.extract("witness/C04_parallel_sample_sort.cpp")
+        finally:
+            if old is None:
+                os.environ.pop("VERIF_NO_NORMALIZE", None)
+            else:
+                os.environ["VERIF_NO_NORMALIZE"] = old
+    r = _RAW["tu"].by_did.get(fn.did)
+    if r is None or r.qname != fn.qname or r.body is None:
+        return None
+    return r
+
+
+def _src_key(z):
+    return (z.get("f"), z.get("l"), z.get("c"), z["k"], z.get("member"))
+
+
 def check_use_after_release(ck, tu, fn):
-    g = cfgm.CFG(fn)
     tag = "%s::%s [%s]" % (fn.record.split("::")[-1], fn.name, inst(fn))
+    sig0 = "%s::%s" % (fn.record.split("::")[-1], fn.name)
+    res = uar_find(fn)
+    if res[0] == "bad" and getattr(fn, "normalized", False):
+        # the normaliser replaces a new local by its initialiser at the uses: a member read that really happens at the declaration
+        # then appears where the local is used.  Such copies are judged where they are evaluated - in the function as written.
+        rfn = raw_function(fn)
+        if rfn is not None and uar_find(rfn)[0] == "ok":
+            inits = set(_src_key(z) for v in rfn.nodes() if v["k"] == "VarDecl" and kids(v) for z in ir.walk(kids(v)[0]))
+            own = set(z["id"] for v in fn.nodes() if v["k"] == "VarDecl" and kids(v) for z in ir.walk(kids(v)[0]))
+            res = uar_find(fn, skip=lambda y: y["id"] not in own and _src_key(y) in inits)
+    if res[0] == "bad":
+        bad, why = res[1], res[2]
+        what = dtable.describe(bad) if bad["k"] != "This" else "this"
+        if bad["k"] == "DeclRefExpr":
+            what = "%s (an alias of %s)" % (what, alias_of_own_member(fn, bad))
+        ck.violation("USE-AFTER-RELEASE", fn.qname, "%s:%s" % (sig0, what.replace(" ", "")),
+                     "member `%s` is accessed after a release point (%s): heap-use-after-free when the step completes in between" % (what, why), fn.nloc(bad))
+    elif res[1]:
+        ck.ok("USE-AFTER-RELEASE", tag, "%d release point(s), no member access reachable afterwards" % res[1])
+
+
+def must_release(fn, memo, depth=0):
+    """every path through the member function passes substep_notify_done() on this / delete this (directly or through a
+    member function called on this that does)"""
+    if fn.did in memo:
+        return memo[fn.did]
+    memo[fn.did] = False
+    r = False
+    if fn.body is not None and fn.cfg and depth < 6:
+        g = cfgm.CFG(fn)
+        pos = []
+        for x in fn.nodes():
+            hit = is_call(x, "substep_notify_done") or (x["k"] == "CXXDeleteExpr" and kids(x) and strip_casts(kids(x)[0])["k"] == "This")
+            if not hit and "callee" in x and x.get("member_call") and kids(x) and strip_casts(kids(x)[0])["k"] == "This":
+                cal = fn.tu.by_did.get(x["callee"].get("did"))
+                hit = cal is not None and cal is not fn and must_release(cal, memo, depth + 1)
+            if hit and g.pos(x) is not None:
+                pos.append(g.pos(x))
+        r = bool(pos) and g.path_avoiding((g.entry, -1), pos) is None
+    memo[fn.did] = r
+    return r
+
+
+def uar_find(fn, skip=None):
+    """('bad', node, why) for a member access reachable after a release point, else ('ok', number of release points)"""
+    g = cfgm.CFG(fn)
     sig0 = "%s::%s" % (fn.record.split("::")[-1], fn.name)
     releases = []
     holds = fn.name in UNDER_HANDLE
     own_add = [x for x in fn.nodes() if is_call(x, "substep_add")]
+    why_dec = "--pwork_ gives up this job's claim: unless it reached zero another thread may complete and delete the step"
     for x in fn.nodes():
         if is_call(x, "substep_notify_done"):
-            releases.append((x, "substep_notify_done() may run substep_all_done(), which deletes this"))
-        if x["k"] == "CXXDeleteExpr" and strip_casts(kids(x)[0])["k"] == "This":
-            releases.append((x, "delete this"))
+            releases.append((x, "substep_notify_done() may run substep_all_done(), which deletes this", None))
+        elif "callee" in x and x.get("member_call") and kids(x) and strip_casts(kids(x)[0])["k"] == "This":
+            cal = fn.tu.by_did.get(x["callee"].get("did"))
+            if cal is not None and cal is not fn and must_release(cal, fn.tu.__dict__.setdefault("_c04_must_release", {})):
+                releases.append((x, "%s() gives the step up on every one of its paths (substep_notify_done() / delete this)" % cal.name, None))
+        if x["k"] == "CXXDeleteExpr" and kids(x) and strip_casts(kids(x)[0])["k"] == "This":
+            releases.append((x, "delete this", None))
         # giving up this job's claim on a phase counter: others may finish the step afterwards
-        u = match.unop(x, ("--",))
-        if u and match.this_field(u[1]) == "pwork_":
-            releases.append((x, "--pwork_ gives up this job's claim: unless it reached zero another thread may complete and delete the step"))
-        if "callee" in x and x["k"] == "CXXOperatorCallExpr" and x.get("op") == "--" and match.this_field(kids(x)[0]) == "pwork_":
-            releases.append((x, "--pwork_ gives up this job's claim: unless it reached zero another thread may complete and delete the step"))
-        if pool_enqueue(x) and not holds and not (own_add and g.pos(own_add[0]) and g.dominates(g.pos(own_add[0]), g.pos(x))):
-            releases.append((x, "a job enqueued while no handle is held can run the remaining phases to completion and delete the step"))
-    n_ok = 0
-    for (r, why) in releases:
+        u = match.unop(x, ("--",)) if x["k"] == "UnaryOperator" else None
+        if u and field_r(fn, u[1]) == "pwork_":
+            releases.append((x, why_dec, ("old" if u[2] else "new", 1)))
+        r = atomic_rmw(fn, x)
+        if r and r[0] == "pwork_" and r[1] == "-":
+            if r[3] is None:
+                raise Undecidable("%s: pwork_ is decremented by an amount that is not a constant" % fn.nloc(x))
+            releases.append((x, why_dec, (r[2], r[3])))
+        if pool_enqueue(x) and not holds and not (own_add and g.pos(own_add[0]) and g.pos(x) and g.dominates(g.pos(own_add[0]), g.pos(x))):
+            releases.append((x, "a job enqueued while no handle is held can run the remaining phases to completion and delete the step", None))
+    for (r, why, dec) in releases:
         pr = g.pos(r)
         if pr is None:
-            continue
-        bad = None
+            raise Undecidable("%s: release point of %s has no position in the CFG" % (fn.nloc(r), sig0))
+        blocked, ru = [], None
+        if dec is not None:
+            # the edges taken only by the job whose own decrement reached zero: that job owns the object
+            ru = ResultUse(fn, r)
+            last = last_value(*dec)
+            for bid, f in ru.branches(g):
+                t = decisive(f, last)
+                if t is not None:
+                    ss = g.blocks[bid]["succ"]
+                    if ss[0] != ss[1]:
+                        blocked.append((bid, ss[0] if t else ss[1]))
+        seen = reach_after(g, pr, blocked)
+        inside = set(z["id"] for z in ir.walk(r))
+        lp = None
+        if "enqueued" in why:
+            lp = fn.parent(r)
+            while lp is not None and lp["k"] not in ("ForStmt", "WhileStmt", "DoStmt"):
+                lp = fn.parent(lp)
+        bad, escapes = None, []
         for y in fn.nodes():
-            if not this_member_access(y) or y is r:
+            if y["id"] in inside or (skip is not None and skip(y)):
+                continue          # operands of the release call itself are evaluated before it
+            if y["k"] == "This":
+                tu_ = this_use(fn, y)
+                if tu_ == "member":
+                    continue
+            elif this_member_access(y) or alias_of_own_member(fn, y):
+                tu_ = "deref"
+            else:
                 continue
             py = g.pos(y)
-            if py is None or py == pr:
+            if py is None or py == pr or not reaches(g, pr, py, seen):
                 continue
-            if any(z is y for z in ir.walk(r)):
-                continue          # operands of the release call itself are evaluated before it
-            if not g.reachable(pr, py):
-                continue
-            # the `== 0` branch after an own decrement: we are the last job and own the object
-            if "pwork_" in why:
-                owner = False
-                par = fn.parent(r)
-                while par is not None and par["k"] != "IfStmt":
-                    par = fn.parent(par)
-                if par is not None and kids(par)[1] is not None and any(z is y for z in ir.walk(kids(par)[1])):
-                    c = match.binop(kids(par)[0], ("==",))
-                    if c and const_int(c[2]) == 0 and any(z is r for z in ir.walk(c[1])):
-                        owner = True
-                if owner:
-                    continue
             # an unheld enqueue inside a loop: accesses in the loop body before the next enqueue are safe while iterations remain
             # (cond true => jobs still to be enqueued => the phase counter cannot reach zero); the loop condition / increment are not
-            if "enqueued" in why:
-                lp = fn.parent(r)
-                while lp is not None and lp["k"] not in ("ForStmt", "WhileStmt"):
-                    lp = fn.parent(lp)
-                if lp is not None:
-                    init, cond, inc, body = match.loop_parts(lp)
-                    in_cond = (cond is not None and any(z is y for z in ir.walk(cond))) or (inc is not None and any(z is y for z in ir.walk(inc)))
-                    in_body = any(z is y for z in ir.walk(body))
-                    if in_body and not in_cond:
-                        continue
+            if lp is not None:
+                init, cond, inc, body = match.loop_parts(lp)
+                in_cond = (cond is not None and any(z is y for z in ir.walk(cond))) or (inc is not None and any(z is y for z in ir.walk(inc)))
+                in_body = any(z is y for z in ir.walk(body))
+                if in_body and not in_cond:
+                    continue
+            if tu_ == "escape":
+                escapes.append(y)
+                continue
             bad = y
             break
         if bad is not None:
-            what = dtable.describe(bad) if bad["k"] != "This" else "this"
-            ck.violation("USE-AFTER-RELEASE", fn.qname, "%s:%s" % (sig0, what.replace(" ", "")),
-                         "member `%s` is accessed after a release point (%s): heap-use-after-free when the step completes in between" % (what, why), fn.nloc(bad))
-            return
-        n_ok += 1
-    if releases:
-        ck.ok("USE-AFTER-RELEASE", tag, "%d release point(s), no member access reachable afterwards" % len(releases))
+            return ("bad", bad, why)
+        if ru is not None and ru.unknown:
+            # is anything of *this touched after the decrement at all?  then the unknown use of the result matters
+            any_after = [y for y in fn.nodes() if (this_member_access(y) or y["k"] == "This") and y["id"] not in inside and g.pos(y) and
+                         reaches(g, pr, g.pos(y), reach_after(g, pr))]
+            if any_after:
+                ufn, un = fn, ru.unknown[0]
+                raise Undecidable("%s: the result of the decrement of pwork_ is used in a form that is not understood (%s); cannot tell which "
+                                  "paths belong to the last job" % (ufn.nloc(un), un["k"]))
+        if escapes:
+            raise Undecidable("%s: `this` is handed on as a pointer value after a release point of %s; what the receiver does with it is not known"
+                              % (fn.nloc(escapes[0]), sig0))
+    return ("ok", len(releases))
 
 
-def check_add_before_enqueue(ck, fn):
-    g = cfgm.CFG(fn)
+# ---------------------------------------------------------------------------------------------- ADD-BEFORE-ENQUEUE / HANDLE-PAIR
+LIM = 6
+
+
+class Credit:
+    """Counts, along every CFG path of one member function, the registrations of *this that are open:
+    substep_add() +1, ctx.enqueue(this, ..) -1 (the child takes one over), substep_notify_done() -1, calls of member
+    functions of the same object by their own summary.  The state is the interval [fewest, most] over all paths to a point.
+    With `flag` (a never-written bool local that decides several branches) the paths are kept apart by the value of the
+    flag (trace partitioning: the partitions are merged where the flag is declared, split where it is tested)."""
+
+    def __init__(self, tu, fn, memo, stack=(), flag=None):
+        self.fn, self.tu = fn, tu
+        self.flag = flag
+        if fn.did in stack:
+            raise Undecidable("%s: %s takes part in a recursion; registrations cannot be counted" % (fn.loc, fn.name))
+        g = self.g = cfgm.CFG(fn)
+        self.events = {}
+        self.sat = self.sat_hi = False
+        for x in fn.nodes():
+            ev = self._classify(x, memo, stack + (fn.did,))
+            if ev is None:
+                continue
+            p = g.pos(x)
+            if p is None:
+                raise Undecidable("%s: %s of %s has no position in the CFG" % (fn.nloc(x), ev[0], fn.name))
+            self.events.setdefault(p[0], []).append((p[1], ev, x))
+        self.tests = {}
+        if flag is not None:
+            decls, brs = flag
+            self.tests = dict(brs)
+            for v in decls:
+                p = g.pos_deep(v)
+                self.events.setdefault(p[0], []).append((p[1], ("flagdecl", 0, 0, 0), v))
+        for b in self.events:
+            self.events[b].sort(key=lambda t: t[0])
+        self.before = {}
+        self._run()
+
+    def _classify(self, x, memo, stack):
+        fn = self.fn
+        if x["k"] == "MemberExpr" and x.get("member") == "substep_working_" and fn.record != STEP:
+            raise Undecidable("%s: substep_working_ is touched directly in %s" % (fn.nloc(x), fn.name))
+        if x["k"] == "This" and this_use(fn, x) == "escape":
+            par = fn.parent(x)
+            while par is not None and par["k"] in WRAPPERS:
+                par = fn.parent(par)
+            if par is not None and "callee" in par and not ctx_enqueue(par) and par.get("op") != "<<":
+                raise Undecidable("%s: `this` is handed to %s(); whether that registers or enqueues a child is not known"
+                                  % (fn.nloc(x), par["callee"]["name"]))
+        if "callee" not in x:
+            return None
+        if is_call(x, "substep_add"):
+            return ("add", 1, 1, 0)
+        if is_call(x, "substep_notify_done"):
+            return ("notify", -1, -1, 0)
+        if ctx_enqueue(x):
+            a = resolve(fn, kids(x)[1]) if len(kids(x)) > 1 else None
+            if a is not None and a["k"] == "This":
+                return ("enqueue", -1, -1, 1)
+            if a is not None and (a["k"] in ("NullPtr", "CXXNullPtrLiteralExpr", "GNUNullExpr") or const_int(a) == 0 or match.this_field(a) == "pstep_"):
+                return None
+            raise Undecidable("%s: the parent step handed to ctx.enqueue() is not recognised (%s)" % (fn.nloc(x), dtable.describe(a)))
+        if x.get("member_call") and kids(x) and strip_casts(kids(x)[0]) is not None and strip_casts(kids(x)[0])["k"] == "This":
+            cal = self.tu.by_did.get(x["callee"].get("did"))
+            if cal is None or cal.body is None or not cal.cfg:
+                return None
+            s = summary(self.tu, cal, memo, stack)
+            if s["trivial"]:
+                return None
+            return ("call of %s()" % cal.name, s["lo"], s["hi"], s["need"], s)
+        return None
+
+    def _clip(self, lo, hi):
+        if lo < -LIM or hi > LIM:
+            self.sat = True
+        if hi > LIM:
+            self.sat_hi = True
+        return max(lo, -LIM), min(hi, LIM)
+
+    @staticmethod
+    def _join(a, b):
+        """partitioned states: {flag value (None = not known): (lo, hi)}"""
+        out = dict(a)
+        for k, (lo, hi) in b.items():
+            out[k] = (lo, hi) if k not in out else (min(out[k][0], lo), max(out[k][1], hi))
+        return out
+
+    @staticmethod
+    def _flat(st):
+        return (min(v[0] for v in st.values()), max(v[1] for v in st.values()))
+
+    def _run(self):
+        g = self.g
+        inn = {g.entry: {None: (0, 0)}}
+        work = [g.entry]
+        while work:
+            b = work.pop()
+            st = dict(inn[b])
+            for (i, ev, x) in self.events.get(b, []):
+                if ev[0] == "flagdecl":
+                    st = {None: self._flat(st)}
+                    continue
+                self.before[x["id"]] = self._flat(st)
+                st = {k: self._clip(lo + ev[1], hi + ev[2]) for k, (lo, hi) in st.items()}
+            ss = g.blocks[b].get("succ", [])
+            for s in g.succ[b]:
+                out = st
+                if b in self.tests and len(ss) == 2 and ss[0] != ss[1]:
+                    val = self.tests[b] if s == ss[0] else (not self.tests[b])
+                    out = {}
+                    for k, iv in st.items():
+                        if k is None or k == val:
+                            out = self._join(out, {val: iv})
+                    if not out:
+                        continue
+                old = inn.get(s)
+                new = dict(out) if old is None else self._join(old, out)
+                if new != old:
+                    inn[s] = new
+                    if s not in work:
+                        work.append(s)
+        ex = inn.get(g.exit)
+        self.exit = self._flat(ex) if ex else None
+
+    def all_events(self):
+        for b in self.events:
+            for (i, ev, x) in self.events[b]:
+                if x["id"] in self.before:
+                    yield ev, x, self.before[x["id"]]
+
+
+PURE_NODES = ("DeclRefExpr", "IntegerLiteral", "CXXBoolLiteralExpr", "CharacterLiteral", "BinaryOperator", "UnaryOperator") + WRAPPERS
+
+
+def _never_written(fn, did):
+    if did in _locals(fn):
+        return stable_local(fn, did) is not None
+    if any(p["did"] == did for p in fn.params):
+        _locals(fn)
+        return did not in fn._c04_captured and not any(_is_write(fn, u) for u in uses_of(fn, did))
+    return False
+
+
+def _cond_sig(fn, e, dids):
+    """structural signature of a condition built only from never-written locals / parameters and constants, else None"""
+    e = peel(e)
+    if e is None or e["k"] not in PURE_NODES:
+        return None
+    c = const_int(e)
+    if c is not None:
+        return ("c", c)
+    if e["k"] == "DeclRefExpr":
+        if e["ref"].get("kind") not in ("local", "param") or not _never_written(fn, e["ref"]["id"]):
+            return None
+        dids.add(e["ref"]["id"])
+        return ("v", e["ref"]["id"])
+    if e["k"] == "UnaryOperator" and e.get("op") in ("++", "--", "&", "*"):
+        return None
+    if e["k"] == "BinaryOperator" and e.get("op") in ASSIGN_OPS + (",",):
+        return None
+    subs = [_cond_sig(fn, k, dids) for k in kids(e)]
+    if any(x is None for x in subs):
+        return None
+    return (e["k"], e.get("op")) + tuple(subs)
+
+
+def cond_classes(fn, g):
+    """{signature: (locals involved, [(block, polarity)])} for conditions over never-written locals that decide two or more
+    branches: on a real path all tests of one class have the same outcome between two declarations of the locals involved"""
+    out = {}
+    for bid, b in g.blocks.items():
+        ss = b.get("succ", [])
+        if len(ss) != 2 or ss[0] is None or ss[1] is None or ss[0] == ss[1] or b.get("cond") is None or b.get("termk") == "SwitchStmt":
+            continue
+        e, pol = peel(fn.byid(b["cond"])), True
+        while e is not None and e["k"] == "UnaryOperator" and e.get("op") == "!":
+            e, pol = peel(kids(e)[0]), not pol
+        dids = set()
+        sig = _cond_sig(fn, e, dids) if e is not None else None
+        if sig is None or not dids:
+            continue
+        ent = out.setdefault(sig, (dids, []))
+        ent[1].append((bid, pol))
+    return {k: v for k, v in out.items() if len(v[1]) > 1}
+
+
+def analyses(tu, fn, memo, stack=()):
+    """the plain analysis and, where the plain one is not exact, one per flag that decides several branches.  Every one of them
+    covers all paths of the function, so a shortfall is real only if all of them show it."""
+    c = Credit(tu, fn, memo, stack)
+    out = [c]
+    ex = c.exit
+    exact = not c.sat and (ex is None or ex[0] == ex[1]) and all(lo == hi for ev, x, (lo, hi) in c.all_events())
+    if not exact:
+        for sig, (dids, brs) in sorted(cond_classes(fn, c.g).items(), key=lambda kv: repr(kv[0])):
+            decls = [_locals(fn)[d] for d in dids if d in _locals(fn)]
+            if all(c.g.pos_deep(v) is not None for v in decls):
+                out.append(Credit(tu, fn, memo, stack, (decls, brs)))
+    return out
+
+
+def summary(tu, fn, memo, stack=()):
+    if fn.did not in memo:
+        cs = analyses(tu, fn, memo, stack)
+
+        def width(c):
+            ex = c.exit if c.exit is not None else (0, 0)
+            return (c.sat_hi, c.sat, ex[1] - ex[0])
+        c = min(cs, key=width)
+        need, has_enq, n = 0, False, 0
+        for ev, x, (lo, hi) in c.all_events():
+            n += 1
+            if ev[3]:
+                need = max(need, ev[3] - lo)
+            if ev[0] == "enqueue" or (len(ev) > 4 and ev[4]["has_enq"]):
+                has_enq = True
+        ex = c.exit if c.exit is not None else (0, 0)
+        memo[fn.did] = dict(trivial=(n == 0), need=need, lo=ex[0], hi=ex[1], has_enq=has_enq, sat=c.sat, sat_hi=c.sat_hi, credit=c, all=cs)
+    return memo[fn.did]
+
+
+def balance(lo, handle):
+    if lo >= 1:
+        return "on a path to this call only the anonymous handle is open" if handle and lo == 1 else "on a path to this call %d registration(s) are open" % lo
+    if lo == 0:
+        return "on a path to this call every registration taken so far has already been handed out"
+    return "on a path to this call %d more registration(s) were handed out than taken" % -lo
+
+
+def covered_by_callers(fn, memo, deficit):
+    """every call of fn from a member function of the same object happens with at least `deficit` registrations open
+    (beyond the caller's anonymous handle); False if there is no such call"""
+    me = memo.get(fn.did)
+    sites = []
+    for s in memo.values():
+        cf = s["credit"].fn
+        for ev, x, (lo, hi) in s["credit"].all_events():
+            if len(ev) > 4 and ev[4] is me:
+                sites.append(lo - (1 if cf.name in HANDLE_FNS else 0))
+    return bool(sites) and all(a >= deficit for a in sites)
+
+
+def findings_of(fn, c, memo, handle):
+    """[(rule, sig, message, loc, key, definite)]: definite = the shortfall exists on every path to the site, not only on some"""
+    keep = 1 if handle else 0          # the anonymous handle must stay open while children are handed out
+    out = []
+    for ev, x, (lo, hi) in c.all_events():
+        kind = ev[0]
+        if kind == "enqueue":
+            if lo < 1 + keep:
+                if not handle and covered_by_callers(fn, memo, 1 - lo):
+                    continue        # the registration is taken by every caller before it calls this function
+                out.append(("ADD-BEFORE-ENQUEUE", "%s:enqueue" % fn.name,
+                            "a child job is enqueued without registering it first (substep_add): it can notify before it is counted and the step "
+                            "completes too early (%s)" % balance(lo, handle), fn.nloc(x), ("e", x["id"]), hi < 1 + keep))
+        elif kind == "notify":
+            if handle and lo < 1:
+                out.append(("HANDLE-PAIR", fn.name, "the anonymous handle is not taken once (substep_add) and released once (substep_notify_done): "
+                            "on a path to this substep_notify_done() no registration is open any more", fn.nloc(x), ("n<", x["id"]), hi < 1))
+            elif handle and hi > 1:
+                out.append(("HANDLE-PAIR", fn.name, "the anonymous handle is not taken once (substep_add) and released once (substep_notify_done): "
+                            "on a path to this substep_notify_done() %d registrations are open, only one can be the handle" % hi, fn.nloc(x),
+                            ("n>", x["id"]), lo > 1))
+        elif kind.startswith("call"):
+            # what the callee lacks itself is judged at its own enqueue (see covered_by_callers); here: the handle is still open
+            if handle and ev[4]["has_enq"] and lo < keep:
+                out.append(("HANDLE-PAIR", fn.name + ":order", "the anonymous handle is not released exactly once on every path after the last child "
+                            "was enqueued (%s, which enqueues children, is reachable with no handle open)" % kind, fn.nloc(x), ("c", x["id"]), hi < keep))
+    if handle:
+        ex = c.exit
+        if ex is not None and ex[1] > 0 and not any(f[0] == "HANDLE-PAIR" for f in out):
+            out.append(("HANDLE-PAIR", fn.name + ":order", "the anonymous handle is not released exactly once on every path after the last child was "
+                        "enqueued (a path reaches the end of %s with %d registration(s) still open)" % (fn.name, ex[1]), fn.loc, ("x", 0), ex[0] > 0))
+    return out
+
+
+def check_add_before_enqueue(ck, tu, fn, memo):
     tag = "%s::%s [%s]" % (fn.record.split("::")[-1], fn.name, inst(fn))
-    enq = [x for x in fn.nodes() if ctx_enqueue(x) and strip_casts(kids(x)[1])["k"] == "This"]
-    adds = [x for x in fn.nodes() if is_call(x, "substep_add")]
-    notifies = [x for x in fn.nodes() if is_call(x, "substep_notify_done")]
-    if not enq and not adds:
+    handle = fn.name in HANDLE_FNS
+    s = summary(tu, fn, memo)
+    c = s["credit"]
+    evs = list(c.all_events())
+    if not evs and not handle:
         return
-    bad = False
-    lists = []
-    for x in fn.nodes():
-        if x["k"] == "CompoundStmt":
-            lists.append([c for c in kids(x) if c is not None])
-    for e in enq:
-        # the statement immediately before the enqueue statement is this->substep_add()
-        okk = False
-        for flat in lists:
-            for i, s in enumerate(flat):
-                if s is e or any(z is e for z in ir.walk(s)) and s["k"] not in ("CompoundStmt", "IfStmt", "WhileStmt", "ForStmt"):
-                    j = i - 1
-                    while j >= 0 and not (is_call(flat[j], "substep_add") or any(is_call(z, "substep_add") for z in ir.walk(flat[j]))):
-                        # only log statements may sit between
-                        if any("callee" in z and z["callee"]["name"] in ("enqueue", "substep_notify_done") for z in ir.walk(flat[j])):
-                            break
-                        j -= 1
-                        if i - j > 3:
-                            break
-                    if j >= 0 and i - j <= 3 and any(is_call(z, "substep_add") for z in ir.walk(flat[j])):
-                        okk = True
-        if not okk:
-            ck.violation("ADD-BEFORE-ENQUEUE", fn.qname, "%s:%s" % (fn.name, fn.nloc(e).split(":")[-1] if False else "enqueue"),
-                         "a child job is enqueued without registering it first (substep_add): it can notify before it is counted and the step completes too early", fn.nloc(e))
-            bad = True
-    # anonymous handle: one extra add at the start, one notify at the end, after the last enqueue
-    if fn.name in ("run", "distribute_finished"):
-        extra = len(adds) - len(enq)
-        if extra != 1 or len(notifies) != 1:
-            ck.violation("HANDLE-PAIR", fn.qname, fn.name, "the anonymous handle is not taken once (substep_add) and released once (substep_notify_done): %d adds for %d enqueues, %d notifies"
-                         % (len(adds), len(enq), len(notifies)), fn.loc)
-            bad = True
-        else:
-            pn = g.pos(notifies[0])
-            first_add = min((g.pos(a) for a in adds if g.pos(a)), key=lambda p: 0 if g.dominates(p, pn) else 1)
-            late = [e for e in enq if g.pos(e) and g.reachable(pn, g.pos(e))]
-            calls_after = [x for x in fn.nodes() if "callee" in x and x["callee"]["name"] in ("sort_sample_sort", "sort_mkqs_cache") and g.pos(x) and g.reachable(pn, g.pos(x))]
-            if late or calls_after or g.path_avoiding((g.entry, -1), [pn]) is not None:
-                ck.violation("HANDLE-PAIR", fn.qname, fn.name + ":order", "the anonymous handle is not released exactly once on every path after the last child was enqueued", fn.nloc(notifies[0]))
-                bad = True
-    if not bad and (enq or fn.name in ("run", "distribute_finished")):
-        ck.ok("ADD-BEFORE-ENQUEUE", tag, "%d child enqueues each directly preceded by substep_add()" % len(enq), nontrivial=bool(enq))
-        if fn.name in ("run", "distribute_finished"):
+    n_enq = sum(1 for ev, x, st in evs if ev[0] == "enqueue")
+    # every analysis covers all paths: a shortfall is real only if each of them shows it
+    per = [findings_of(fn, a, memo, handle) for a in s["all"]]
+    keys = set(f[4] for f in per[0])
+    for fs in per[1:]:
+        keys &= set(f[4] for f in fs)
+    findings = [f for f in per[0] if f[4] in keys]
+    if handle and not findings and not any(ev[0] in ("add", "notify") or ev[0].startswith("call") for ev, x, st in evs):
+        raise Undecidable("%s: %s neither takes nor releases the anonymous handle in a recognised form" % (fn.loc, fn.name))
+
+    def sat_hi(a):
+        return a.sat_hi or any(ev[0].startswith("call") and ev[4]["sat_hi"] for ev, x, st in a.all_events())
+    if (findings or handle) and all(sat_hi(a) for a in s["all"]):
+        raise Undecidable("%s: the number of open registrations in %s is not loop-invariant (registrations and enqueues are not paired within "
+                          "one iteration); the balance cannot be counted" % (fn.loc, fn.name))
+    seen = set()
+    for rule, sig, msg, loc, key, definite in findings:
+        if (rule, sig) in seen:
+            continue
+        seen.add((rule, sig))
+        ck.violation(rule, fn.qname, sig, msg, loc)
+    if not findings and (n_enq or handle):
+        ck.ok("ADD-BEFORE-ENQUEUE", tag, "%d child enqueues, each with a registration (substep_add) of its own open on every path" % n_enq, nontrivial=bool(n_enq))
+        if handle:
             ck.ok("HANDLE-PAIR", tag, "anonymous handle taken first and released once after the last enqueue")
 
 
-def atomic_rmw(x):
-    """(field, op, order)"""
-    if "callee" in x and kids(x):
-        f = match.this_field(kids(x)[0])
-        nm = x["callee"]["name"]
-        if f and "atomic" in x["callee"]["qname"]:
-            if nm in ("operator--", "operator++"):
-                return f, nm, 5
-            if nm in ("fetch_sub", "fetch_add"):
-                a = kids(x)[1:]
-                o = 5
-                if len(a) > 1 and a[1]["k"] != "DefaultArg":
-                    o = const_int(a[1])
-                return f, nm, o
-    return None
-
-
+# ---------------------------------------------------------------------------------------------- RMW-RESULT
 def check_rmw(ck, tu):
     n = 0
+    insts, decided = set(), set()
     for fn in tu.functions:
-        if not fn.record or not (fn.record.startswith(BIG) or fn.record.startswith(STEP)):
+        if not fn.record or not (fn.record.startswith(BIG) or fn.record.startswith(STEP)) or fn.body is None:
             continue
         for x in fn.nodes():
-            r = atomic_rmw(x)
+            r = atomic_rmw(fn, x)
             if not r or r[0] not in ("pwork_", "substep_working_"):
                 continue
-            f, op, order = r
-            if op in ("operator--", "fetch_sub"):
+            f, sign, kind, amount, order = r
+            if sign == "-":
+                decided.add((fn.record, tuple(fn.rtargs or []), f))
+                if amount is None:
+                    raise Undecidable("%s: %s is decremented by an amount that is not a constant" % (fn.nloc(x), f))
                 # the decision must be the result of this RMW
-                par = fn.parent(x)
-                while par is not None and par["k"] in ("ImplicitCastExpr",):
-                    par = fn.parent(par)
-                c = match.binop(par, ("==",)) if par is not None else None
-                want = 0 if op == "operator--" else 1
-                if not (c and (strip_casts(c[1]) is x) and const_int(c[2]) == want):
+                ru = ResultUse(fn, x)
+                v = ru.verdict(last_value(kind, amount))
+                if isinstance(v, tuple):
+                    raise Undecidable("%s: the result of the decrement of %s is used in a form that is not understood (%s)" % (v[2].nloc(v[1]), f, v[1]["k"]))
+                if v != "decided":
+                    # positive: the value is discarded, or every condition built from it behaves the same for the last job and for another one
                     ck.violation("RMW-RESULT", fn.qname, "%s:%s" % (fn.name, f), "the completion decision on %s does not use the result of its own atomic decrement" % f, fn.nloc(x))
                     continue
-                if order is None or order < 4:
+                if order is None:
+                    raise Undecidable("%s: the memory order of the decrement of %s is not a constant" % (fn.nloc(x), f))
+                if order < 4:
                     ck.violation("RMW-RESULT", fn.qname, "%s:%s:order" % (fn.name, f),
                                  "the decrement of %s uses memory order %s: the last decrementer must acquire what the other jobs released (needs acq_rel or stronger)"
                                  % (f, ORDER.get(order, "?")), fn.nloc(x))
@@ -221,88 +909,402 @@ def check_rmw(ck, tu):
                 n += 1
                 ck.ok("RMW-RESULT", "%s::%s %s [%s]" % (fn.record.split("::")[-1], fn.name, f, inst(fn) if fn.rtargs else "-"), "decision = result of the atomic decrement (order %s)" % ORDER.get(order))
             else:
-                if order is not None and order < 3 and f == "substep_working_":
+                if order is None:
+                    raise Undecidable("%s: the memory order of the increment of %s is not a constant" % (fn.nloc(x), f))
+                if order < 3 and f == "substep_working_":
                     ck.violation("RMW-RESULT", fn.qname, "%s:%s:order" % (fn.name, f),
                                  "the increment of %s uses memory order %s (needs release or stronger: the registration must be visible before the job is)" % (f, ORDER.get(order, "?")), fn.nloc(x))
                 else:
                     ck.ok("RMW-RESULT", "%s::%s ++%s" % (fn.record.split("::")[-1], fn.name, f), "atomic increment", nontrivial=False)
+    # per class instance (not per function: a shared helper may hold the one decrement of both phases)
+    for fn in tu.functions:
+        if fn.record == BIG and fn.body is not None:
+            insts.add((fn.record, tuple(fn.rtargs or []), "pwork_"))
+    missing = [i for i in insts if i not in decided]
+    ck.require(len(insts) >= 4 and not missing, "no decrement of pwork_ found in %d of %d instances of PS5BigSortStep" % (len(missing), len(insts)))
+    ck.require(any(d[2] == "substep_working_" for d in decided), "decrement of substep_working_ not found")
     return n
 
 
-def check_phase_arm(ck, fn):
+# ---------------------------------------------------------------------------------------------- PHASE-ARM
+def pwork_stores(fn):
+    """[(node, value expr)] of the stores to pwork_:  pwork_ = v  |  pwork_.store(v[, order])"""
+    out = []
+    for x in fn.nodes():
+        if "callee" in x and x.get("op") == "=" and len(kids(x)) == 2 and field_r(fn, kids(x)[0]) == "pwork_":
+            out.append((x, kids(x)[1]))
+        elif "callee" in x and x.get("member_call") and x["callee"]["name"] == "store" and len(kids(x)) >= 2 and field_r(fn, kids(x)[0]) == "pwork_":
+            out.append((x, kids(x)[1]))
+        elif x["k"] == "BinaryOperator" and x.get("op") == "=" and field_r(fn, kids(x)[0]) == "pwork_":
+            out.append((x, kids(x)[1]))
+    return out
+
+
+def pwork_unknown_ops(fn, stores):
+    """operations on pwork_ that are neither a store, a recognised RMW nor a plain load"""
+    known = set(id(s) for s, v in stores)
+    out = []
+    for x in fn.nodes():
+        if x["k"] != "MemberExpr" or x.get("member") != "pwork_" or not this_member_access(x):
+            continue
+        e, par = x, fn.parent(x)
+        while par is not None and par["k"] in WRAPPERS:
+            e, par = par, fn.parent(par)
+        if par is None:
+            continue
+        if id(par) in known or atomic_rmw(fn, par):
+            continue
+        if "callee" in par and par.get("member_call") and kids(par)[0] is e and par["callee"]["name"] in ("load", "operator unsigned long", "operator size_t"):
+            continue
+        if "callee" in par and par["callee"]["name"].startswith("operator ") and kids(par)[0] is e:
+            continue      # conversion operator: a load
+        if par["k"] == "VarDecl" and (par.get("isref") or (par.get("ty") or "").strip().endswith("&")):
+            continue      # a reference alias: resolved at its uses
+        if par["k"] in ("BinaryOperator",) and par.get("op") in ("==", "!=", "<", ">", "<=", ">="):
+            continue
+        out.append(par)
+    return out
+
+
+def value_key(fn, e, depth=0):
+    """canonical (base, offset) of an integer expression: base ('field', name) | ('local', did) | ('param', did) | None for a constant;
+    never-written locals stand for their initialiser (or for themselves when that is not of this form)"""
+    e = peel(e)
+    if e is None or depth > 8:
+        return None
+    c = const_int(e)
+    if c is not None:
+        return (None, c)
+    f = match.this_field(e)
+    if f:
+        return (("field", f), 0)
+    if e["k"] == "DeclRefExpr":
+        did = e["ref"]["id"]
+        v = stable_local(fn, did)
+        if v is not None:
+            k = value_key(fn, kids(v)[0], depth + 1)
+            return k if k is not None else (("local", did), 0)
+        if did not in _locals(fn) and _never_written(fn, did):
+            return (("param", did), 0)
+        return None
+    b = match.binop(e, ("+", "-")) if e["k"] == "BinaryOperator" else None
+    if b:
+        l, r = value_key(fn, b[1], depth + 1), value_key(fn, b[2], depth + 1)
+        if l is None or r is None:
+            return None
+        if r[0] is None:
+            return (l[0], l[1] + r[1] if b[0] == "+" else l[1] - r[1])
+        if l[0] is None and b[0] == "+":
+            return (r[0], l[1] + r[1])
+    return None
+
+
+def show_key(k):
+    if k is None:
+        return "?"
+    base, off = k
+    if base is None:
+        return str(off)
+    s = base[1] if base[0] == "field" else "local#%s" % base[1]
+    return s if not off else "%s%+d" % (s, off)
+
+
+def step_of(fn, n, did):
+    """+1 / -1 if n changes the local `did` by one: ++i i++ i += 1 i = i + 1 (and the mirror images), else None"""
+    u = match.unop(n, ("++", "--")) if n is not None and n["k"] == "UnaryOperator" else None
+    if u and ref_of(u[1]) == did:
+        return 1 if u[0] == "++" else -1
+    b = match.binop(n, ("+=", "-=")) if n is not None and n["k"] == "CompoundAssignOperator" else None
+    if b and ref_of(b[1]) == did and const_int(b[2]) == 1:
+        return 1 if b[0] == "+=" else -1
+    b = match.binop(n, ("=",)) if n is not None and n["k"] == "BinaryOperator" else None
+    if b and ref_of(b[1]) == did:
+        r = match.binop(peel(b[2]), ("+", "-"))
+        if r and ref_of(r[1]) == did and const_int(r[2]) == 1:
+            return 1 if r[0] == "+" else -1
+        if r and r[0] == "+" and ref_of(r[2]) == did and const_int(r[1]) == 1:
+            return 1
+    return None
+
+
+def trip_count(fn, g, lp, e):
+    """value_key of the number of times the call e runs in loop lp, for counting loops whose every iteration runs e once:
+    for/while (i = c0; i < B | i != B | B > i | B != i; ++i) and the count-down mirror (i = B; i > c | i != c; --i).
+    Raises Undecidable with the reason when the loop is of another form."""
+    loc = fn.nloc(lp)
+    if lp["k"] == "DoStmt":
+        raise Undecidable("%s: the jobs are enqueued by a do-while loop; its trip count is not derived" % loc)
+    init, cond, inc, body = match.loop_parts(lp)
+    # e runs exactly once per iteration: no branching statement between the loop body and e, no jump statement in the body
+    par = fn.parent(e)
+    while par is not None and par is not lp:
+        if par["k"] in ("IfStmt", "ForStmt", "WhileStmt", "DoStmt", "SwitchStmt", "ConditionalOperator", "CXXForRangeStmt", "CXXTryStmt") or \
+                (par["k"] == "BinaryOperator" and par.get("op") in ("&&", "||")):
+            raise Undecidable("%s: the job is enqueued conditionally inside the loop; the number of jobs is not derived" % fn.nloc(e))
+        par = fn.parent(par)
+    if any(z["k"] in ("BreakStmt", "ContinueStmt", "ReturnStmt", "GotoStmt", "CXXThrowExpr") for z in ir.walk(body)):
+        raise Undecidable("%s: the enqueuing loop contains a jump statement; the number of jobs is not derived" % loc)
+    c = match.binop(cond, ("<", ">", "!=")) if cond is not None else None
+    if not c:
+        raise Undecidable("%s: the condition of the enqueuing loop is not a comparison of the counter with a bound" % loc)
+    for ctr_side, bnd_side, op in ((c[1], c[2], c[0]), (c[2], c[1], {"<": ">", ">": "<", "!=": "!="}[c[0]])):
+        did = ref_of(ctr_side)
+        v = _locals(fn).get(did) if did is not None else None
+        if v is None:
+            continue
+        # all writes of the counter: its initialiser and exactly one step per iteration
+        writes = [u for u in uses_of(fn, did) if _is_write(fn, u)]
+        steps = []
+        for u in writes:
+            p = fn.parent(u)
+            while p is not None and p["k"] in WRAPPERS:
+                p = fn.parent(p)
+            if p is not None and p["k"] in ("BinaryOperator", "CompoundAssignOperator") and p.get("op") == "=" and init is not None and any(z is p for z in ir.walk(init)):
+                continue
+            steps.append(p)
+        if len(steps) != 1 or step_of(fn, steps[0], did) is None:
+            continue
+        st = step_of(fn, steps[0], did)
+        sp = steps[0]
+        in_inc = inc is not None and any(z is sp for z in ir.walk(inc))
+        in_body_top = body is not None and ((body["k"] == "CompoundStmt" and any(k is sp for k in kids(body))) or body is sp)
+        if not (in_inc or in_body_top):
+            continue
+        # start value
+        start = None
+        if kids(v) and kids(v)[0] is not None:
+            start = value_key(fn, kids(v)[0])
+        if init is not None and init["k"] in ("BinaryOperator",) and init.get("op") == "=" and ref_of(kids(init)[0]) == did:
+            start = value_key(fn, kids(init)[1])
+        # (a counter declared before the loop: nothing writes it in between, only the one step exists - checked above)
+        bound = value_key(fn, bnd_side)
+        if start is None or bound is None:
+            raise Undecidable("%s: start value or bound of the enqueuing loop is not understood" % loc)
+        if st == 1 and op in ("<", "!="):
+            if start[0] is not None:
+                raise Undecidable("%s: the enqueuing loop does not start at a constant" % loc)
+            return (bound[0], bound[1] - start[1])
+        if st == -1 and op in (">", "!="):
+            if bound[0] is not None:
+                raise Undecidable("%s: the counting-down enqueuing loop does not end at a constant" % loc)
+            return (start[0], start[1] - bound[1])
+    raise Undecidable("%s: the enqueuing loop is not a counting loop of a recognised form (counter, bound, single step)" % loc)
+
+
+def check_phase_arm(ck, tu, fn):
     """pwork_ = parts_ is stored before the first job of the phase is enqueued"""
     g = cfgm.CFG(fn)
     tag = "%s::%s [%s]" % (fn.record.split("::")[-1], fn.name, inst(fn))
-    arms = [x for x in fn.nodes() if "callee" in x and x.get("op") == "=" and match.this_field(kids(x)[0]) == "pwork_"]
-    arms += [x for x in fn.nodes() if match.binop(x, ("=",)) and match.this_field(match.binop(x, ("=",))[1]) == "pwork_" and x["k"] == "BinaryOperator"]
     enq = [x for x in fn.nodes() if pool_enqueue(x)]
-    if not enq:
+    stores = pwork_stores(fn)
+    if not enq or not (fn.name in ("sample", "count_finished") or stores):
         return
-    if len(arms) != 1 or not all(g.dominates(g.pos_deep(arms[0]), g.pos(e)) for e in enq):
-        ck.violation("PHASE-ARM", fn.qname, fn.name, "the phase counter pwork_ is not set before the first job that decrements it is enqueued", fn.loc)
-        return
-    rhs = kids(arms[0])[1] if "callee" in arms[0] else match.binop(arms[0], ("=",))[2]
-    if match.this_field(rhs) != "parts_":
-        ck.violation("PHASE-ARM", fn.qname, fn.name + ":value", "pwork_ is armed with %s, the loop enqueues parts_ jobs" % dtable.describe(rhs), fn.nloc(arms[0]))
-        return
-    # the loop enqueues exactly parts (the armed number) jobs
-    lp = fn.parent(enq[0])
-    while lp is not None and lp["k"] != "ForStmt":
-        lp = fn.parent(lp)
-    okl = False
-    if lp is not None:
-        init, cond, inc, body = match.loop_parts(lp)
-        b = match.binop(cond, ("<", "!="))
-        lo = [z for z in ir.walk(init) if z["k"] == "VarDecl" and kids(z) and const_int(kids(z)[0]) == 0]
-        if b and lo and ref_of(b[1]) == lo[0]["did"]:
-            bound = strip_casts(b[2])
-            if match.this_field(bound) == "parts_":
-                okl = True
-            elif bound["k"] == "DeclRefExpr":
-                d = [z for z in fn.nodes() if z["k"] == "VarDecl" and z["did"] == bound["ref"]["id"] and kids(z)]
-                okl = bool(d) and match.this_field(kids(d[0])[0]) == "parts_"
-    if okl:
-        ck.ok("PHASE-ARM", tag, "pwork_ = parts_ dominates the loop that enqueues parts_ jobs")
-    else:
-        ck.violation("PHASE-ARM", fn.qname, fn.name + ":count", "the number of enqueued jobs is not the number the phase counter was armed with", fn.nloc(enq[0]))
+    for e in enq:
+        if g.pos(e) is None:
+            raise Undecidable("%s: enqueue has no position in the CFG" % fn.nloc(e))
+    unknown = pwork_unknown_ops(fn, stores)
+    # member functions called on this that store pwork_ themselves
+    helper_arms = []
+    for x in fn.nodes():
+        if "callee" in x and x.get("member_call") and kids(x) and strip_casts(kids(x)[0])["k"] == "This":
+            cal = tu.by_did.get(x["callee"].get("did"))
+            if cal is not None and cal.body is not None and pwork_stores(cal):
+                helper_arms.append(x)
+    arm_pos = []
+    for s, v in stores:
+        p = g.pos_deep(s)
+        if p is None:
+            raise Undecidable("%s: store to pwork_ has no position in the CFG" % fn.nloc(s))
+        arm_pos.append(p)
+    arm_pos += [g.pos(h) for h in helper_arms if g.pos(h)]
+    for e in enq:
+        if g.path_from_entry_avoiding(g.pos(e), arm_pos) is not None:
+            if unknown:
+                raise Undecidable("%s: pwork_ is used in a form that is not understood (%s); it may be the arming store" % (fn.nloc(unknown[0]), unknown[0]["k"]))
+            ck.violation("PHASE-ARM", fn.qname, fn.name, "the phase counter pwork_ is not set before the first job that decrements it is enqueued "
+                         "(a path reaches this enqueue without passing a store to pwork_)", fn.nloc(e))
+            return
+    if helper_arms:
+        raise Undecidable("%s: pwork_ is armed inside %s(); the armed value is not compared with the number of jobs" % (fn.nloc(helper_arms[0]), helper_arms[0]["callee"]["name"]))
+    # no member that takes part in the comparison is written in this function
+    written = set()
+    for x in fn.nodes():
+        if this_member_access(x) and _is_write(fn, x):
+            written.add(x["member"])
+    # the loop enqueues exactly as many jobs as the counter was armed with
+    counts = []
+    for e in enq:
+        lp = fn.parent(e)
+        while lp is not None and lp["k"] not in ("ForStmt", "WhileStmt", "DoStmt", "CXXForRangeStmt"):
+            lp = fn.parent(lp)
+        if lp is None:
+            raise Undecidable("%s: the phase's jobs are not enqueued by a loop; their number is not derived" % fn.nloc(e))
+        if lp["k"] == "CXXForRangeStmt":
+            raise Undecidable("%s: the jobs are enqueued by a range-for loop; its trip count is not derived" % fn.nloc(lp))
+        counts.append((e, trip_count(fn, g, lp, e)))
+    if len(enq) > 1:
+        raise Undecidable("%s: the phase's jobs are enqueued at %d places; their total is not derived" % (fn.nloc(enq[1]), len(enq)))
+    e, cnt = counts[0]
+    for s, v in stores:
+        if not (g.pos_deep(s) and (g.dominates(g.pos_deep(s), g.pos(e)) or g.reachable(g.pos_deep(s), g.pos(e)))):
+            continue
+        av = value_key(fn, v)
+        if av is None:
+            raise Undecidable("%s: the value pwork_ is armed with is not understood (%s)" % (fn.nloc(s), dtable.describe(v)))
+        for k in (av, cnt):
+            if k[0] is not None and k[0][0] == "field" and k[0][1] in written:
+                raise Undecidable("%s: %s is written in %s; the armed value and the loop bound may differ" % (fn.loc, k[0][1], fn.name))
+        if av != cnt:
+            definite = av[0] == cnt[0] or all(k[0] is None or k[0][0] == "field" for k in (av, cnt))
+            if not definite:
+                raise Undecidable("%s: pwork_ is armed with %s, the loop enqueues %s jobs; whether these are equal is not known" % (fn.nloc(s), show_key(av), show_key(cnt)))
+            if cnt == (("field", "parts_"), 0):
+                ck.violation("PHASE-ARM", fn.qname, fn.name + ":value", "pwork_ is armed with %s, the loop enqueues parts_ jobs" % dtable.describe(v), fn.nloc(s))
+            else:
+                ck.violation("PHASE-ARM", fn.qname, fn.name + ":count", "the number of enqueued jobs is not the number the phase counter was armed with "
+                             "(armed with %s, the loop enqueues %s jobs)" % (show_key(av), show_key(cnt)), fn.nloc(e))
+            return
+    ck.ok("PHASE-ARM", tag, "pwork_ = %s is stored on every path before the loop that enqueues %s jobs" % (show_key(cnt), show_key(cnt)))
+
+
+# ---------------------------------------------------------------------------------------------- COMPLETION-BARRIER
+POOL_KNOWN = ("enqueue", "loop_until_empty", "size", "idle", "has_idle", "done", "thread")
+
+
+def waits(tu, fn, memo, depth=0):
+    """'must': every path through the function passes ThreadPool::loop_until_empty() (directly or in a callee whose body is in
+    this TU); 'may': some call of it exists; 'no'"""
+    if fn.did in memo:
+        return memo[fn.did]
+    memo[fn.did] = "no"
+    r = "no"
+    if fn.body is not None and fn.cfg and depth < 6:
+        g = cfgm.CFG(fn)
+        pos, some = [], False
+        for x in fn.nodes():
+            if "callee" not in x:
+                continue
+            w = "no"
+            if x["callee"]["name"] == "loop_until_empty":
+                w = "must"
+            else:
+                cal = tu.by_did.get(x["callee"].get("did"))
+                if cal is not None and cal is not fn:
+                    w = waits(tu, cal, memo, depth + 1)
+            if w != "no":
+                some = True
+            if w == "must" and g.pos(x) is not None:
+                pos.append(g.pos(x))
+        if pos and g.path_avoiding((g.entry, -1), pos) is None:
+            r = "must"
+        elif some:
+            r = "may"
+    memo[fn.did] = r
+    return r
 
 
 def check_completion(ck, tu):
+    memo = {}
     for fn in tu.some(qname=NS + "parallel_sample_sort_base"):
         g = cfgm.CFG(fn)
         enq = [x for x in fn.nodes() if ctx_enqueue(x)]
-        waits = [x for x in fn.nodes() if "callee" in x and x["callee"]["name"] == "loop_until_empty"]
-        if len(enq) == 1 and len(waits) == 1 and g.dominates(g.pos(enq[0]), g.pos(waits[0])) and g.path_avoiding(g.pos(enq[0]), [g.pos(waits[0])]) is None:
-            ck.ok("COMPLETION-BARRIER", "parallel_sample_sort_base [%s]" % ("lcp" if "Lcp" in fn.targs[1] else "nolcp"), "root job enqueued, then loop_until_empty() on every path before the context is destroyed")
+        if not enq:
+            raise Undecidable("%s: the root job's ctx.enqueue() is not found in parallel_sample_sort_base" % fn.loc)
+        direct, helpers, maybe = [], [], []
+        for x in fn.nodes():
+            if "callee" not in x:
+                continue
+            if x["callee"]["name"] == "loop_until_empty":
+                direct.append(x)
+                continue
+            cal = tu.by_did.get(x["callee"].get("did"))
+            if cal is not None and cal.body is not None and not ctx_enqueue(x):
+                w = waits(tu, cal, memo)
+                if w == "must":
+                    helpers.append(x)
+                elif w == "may":
+                    maybe.append(x)
+        wpos = [g.pos(w) for w in direct + helpers]
+        if any(p is None for p in wpos) or any(g.pos(e) is None for e in enq):
+            raise Undecidable("%s: enqueue / wait has no position in the CFG" % fn.loc)
+        tag = "parallel_sample_sort_base [%s]" % ("lcp" if len(fn.targs) > 1 and "Lcp" in fn.targs[1] else "nolcp")
+        for e in enq:
+            if g.path_avoiding(g.pos(e), wpos) is None:
+                continue
+            # closed world: everything that receives the pool (or the whole context) after the enqueue is a known operation
+            seen = reach_after(g, g.pos(e))
+            for x in maybe:
+                if g.pos(x) and reaches(g, g.pos(e), g.pos(x), seen):
+                    raise Undecidable("%s: %s() waits for the pool on some of its paths only; whether it does here is not known" % (fn.nloc(x), x["callee"]["name"]))
+            for x in fn.nodes():
+                if "callee" not in x or x is e or not g.pos(x) or not reaches(g, g.pos(e), g.pos(x), seen):
+                    continue
+                for a in kids(x):
+                    ra = resolve(fn, a)
+                    if ra is None:
+                        continue
+                    is_pool = "ThreadPool" in (ra.get("ty") or "") and ra["k"] in ("MemberExpr", "DeclRefExpr")
+                    is_ctx = ra["k"] == "DeclRefExpr" and "PS5Context" in (ra.get("ty") or "")
+                    if (is_pool or is_ctx) and x["callee"]["name"] not in POOL_KNOWN and not ctx_enqueue(x) and tu.by_did.get(x["callee"].get("did")) is None:
+                        raise Undecidable("%s: %s() receives the thread pool / context after the root job was enqueued; whether it waits for the pool "
+                                          "to drain is not known" % (fn.nloc(x), x["callee"]["name"]))
+            ck.violation("COMPLETION-BARRIER", fn.qname, "base", "the sort returns (destroying the context and the shadow array) without waiting for the pool to drain "
+                         "(a path from the enqueue of the root job to the end passes no loop_until_empty())", fn.loc)
+            break
         else:
-            ck.violation("COMPLETION-BARRIER", fn.qname, "base", "the sort returns (destroying the context and the shadow array) without waiting for the pool to drain", fn.loc)
+            ck.ok("COMPLETION-BARRIER", tag, "root job enqueued, then loop_until_empty() on every path before the context is destroyed")
 
 
+# ---------------------------------------------------------------------------------------------- COPY-BACK
 def check_copy_back(ck, tu):
     for fn in tu.some(qname=SMALL + "::insertion_sort_cache"):
         g = cfgm.CFG(fn)
-        cb = [x for x in fn.nodes() if "callee" in x and x["callee"]["name"] == "copy_back" and ref_of(kids(x)[0]) == fn.params[0]["did"]]
+        if not fn.params:
+            raise Undecidable("%s: insertion_sort_cache has no parameter" % fn.loc)
+        pd = fn.params[0]["did"]
+
+        def is_p(e):
+            r = resolve(fn, e)
+            return r is not None and r["k"] == "DeclRefExpr" and r["ref"]["id"] == pd
+        cb = [x for x in fn.nodes() if "callee" in x and x["callee"]["name"] == "copy_back" and kids(x) and is_p(kids(x)[0])]
         rets = [x for x in fn.nodes() if x["k"] == "ReturnStmt"]
         tag = "insertion_sort_cache<%s> [%s]" % (fn.targs[0] if fn.targs else "", inst(fn))
-        if len(cb) == 1 and g.path_avoiding((g.entry, -1), [g.pos(cb[0])]) is None:
+        pos = [g.pos(c) for c in cb]
+        if any(p is None for p in pos):
+            raise Undecidable("%s: copy_back() call has no position in the CFG" % fn.loc)
+        if g.path_avoiding((g.entry, -1), pos) is None:
             ck.ok("COPY-BACK", tag, "copy_back() of the (possibly flipped) input on every path, %d returns" % len(rets))
-        else:
-            ck.violation("COPY-BACK", fn.qname, "insertion_sort_cache", "there is a return path that skips copy_back(): a bucket living in the shadow array is never moved back "
-                         "to the caller's array", fn.loc)
+            continue
+        # closed world: the input pointer is not handed to anything else that could do the copying
+        for x in fn.nodes():
+            if "callee" not in x or any(x is c for c in cb):
+                continue
+            args = kids(x)[1:] if x.get("member_call") else kids(x)
+            for a in args:
+                if is_p(a):
+                    cal = tu.by_did.get(x["callee"].get("did"))
+                    if cal is None or cal.body is None or any("callee" in z and z["callee"]["name"] == "copy_back" for z in cal.nodes()):
+                        raise Undecidable("%s: the input pointer is handed to %s(); whether that copies the bucket back is not known" % (fn.nloc(x), x["callee"]["name"]))
+        ck.violation("COPY-BACK", fn.qname, "insertion_sort_cache", "there is a return path that skips copy_back(): a bucket living in the shadow array is never moved back "
+                     "to the caller's array", fn.loc)
+
+
+# ---------------------------------------------------------------------------------------------- RESULT-ARRAY
+PTR_PURE = ("size", "empty", "active", "shadow", "flipped", "with_lcp", "lcp", "get_lcp", "sub", "flip", "copy_back", "begin", "end", "set_lcp", "fill_lcp")
 
 
 def check_result_array(ck, tu):
     """RESULT-ARRAY: what runs after the sub-sorts of a step (substep_all_done, calculate_lcp and what they call) finds
     the sorted strings in the ORIGINAL array - every leaf sorter copies back - which is the shadow array of a flipped
     pointer.  A read through p.active() there is right only if p is surely unflipped (a copy_back() result or freshly
-    constructed) or the flipped case selects p.shadow()."""
+    constructed) or the read happens only where p.flipped() was tested false (and the flipped case reads p.shadow())."""
     def shadow_ty(t):
         return "StringShadow" in (t or "")
 
-    def surely_unflipped(e):
-        e0 = match.strip_conv(e)
+    def surely_unflipped(root, e):
+        e0 = match.strip_conv(resolve(root, e))
         while e0 is not None and e0["k"] in ("MaterializeTemporaryExpr", "CXXBindTemporaryExpr", "ExprWithCleanups", "ParenExpr") and kids(e0):
-            e0 = match.strip_conv(kids(e0)[0])
+            e0 = match.strip_conv(resolve(root, kids(e0)[0]))
         if e0 is None:
             return False
         if "callee" in e0 and e0.get("member_call") and e0["callee"]["name"] == "copy_back":
@@ -310,6 +1312,16 @@ def check_result_array(ck, tu):
         if e0["k"] in ("CXXConstructExpr", "CXXTemporaryObjectExpr") and len([a for a in kids(e0) if a is not None and a["k"] != "DefaultArg"]) == 2:
             return True
         return False
+
+    def own_pointer(root, e):
+        """the argument is the step's own pointer (a member of the step or a parameter): it is flipped when the step's bucket lives in the shadow array"""
+        e0 = resolve(root, e)
+        if e0 is None:
+            return False
+        if e0["k"] == "MemberExpr":
+            return True
+        return e0["k"] == "DeclRefExpr" and e0["ref"].get("kind") == "param"
+
     roots = [f for f in tu.functions if f.name in ("substep_all_done", "calculate_lcp") and f.body is not None and (f.qname or "").startswith(NS)]
     ck.require(len(roots) >= 2, "after-recursion hooks (substep_all_done / calculate_lcp) not instantiated")
     n = 0
@@ -323,35 +1335,136 @@ def check_result_array(ck, tu):
             for i, (p, a) in enumerate(zip(cal.params, kids(c))):
                 if not shadow_ty(p.get("ty")):
                     continue
-                reads = [y for y in cal.nodes() if "callee" in y and y.get("member_call") and y["callee"]["name"] == "active" and ref_of(kids(y)[0]) == p["did"]]
+                pd = p["did"]
+
+                def on_p(z, name):
+                    if "callee" in z and z.get("member_call") and z["callee"]["name"] == name and kids(z):
+                        r = resolve(cal, kids(z)[0])
+                        return r is not None and r["k"] == "DeclRefExpr" and r["ref"]["id"] == pd
+                    return False
+                reads = [y for y in cal.nodes() if on_p(y, "active")]
                 if not reads:
                     continue
                 n += 1
                 tag = "%s -> %s [%s]" % (root.qname.split("::")[-2] + "::" + root.name, cal.name, inst(root))
+
+                def polarity(cond, depth=0):
+                    """True: cond <=> p.flipped(); False: cond <=> !p.flipped(); None: something else"""
+                    e = resolve(cal, cond)
+                    if e is None or depth > 6:
+                        return None
+                    if e["k"] == "UnaryOperator" and e.get("op") == "!":
+                        r = polarity(kids(e)[0], depth + 1)
+                        return None if r is None else (not r)
+                    if on_p(e, "flipped"):
+                        return True
+                    b = match.binop(e, ("==", "!="))
+                    if b:
+                        for s, o in ((b[1], b[2]), (b[2], b[1])):
+                            cv = const_int(o)
+                            r = polarity(s, depth + 1)
+                            if cv is not None and r is not None:
+                                return (r == bool(cv)) if b[0] == "==" else (r != bool(cv))
+                    return None
+                if surely_unflipped(root, a):
+                    ck.ok("RESULT-ARRAY", tag, "reads the original array (flipped ? shadow() : active()) or gets a surely unflipped pointer")
+                    continue
+                g = cfgm.CFG(cal)
+                unfl = mustfact.MustFact(cal, g, lambda cond, truth: (lambda r: r is not None and r != truth)(polarity(cond)), lambda node: None)
+                flp = mustfact.MustFact(cal, g, lambda cond, truth: (lambda r: r is not None and r == truth)(polarity(cond)), lambda node: None)
                 bad = None
                 for y in reads:
-                    par = cal.parent(y)
-                    while par is not None and par["k"] in ("ImplicitCastExpr", "MaterializeTemporaryExpr", "ParenExpr"):
-                        par = cal.parent(par)
-                    handled = False
-                    if par is not None and par["k"] == "ConditionalOperator":
-                        cnd, tv, fv = kids(par)
-                        fl = [z for z in ir.walk(cnd) if "callee" in z and z.get("member_call") and z["callee"]["name"] == "flipped" and ref_of(kids(z)[0]) == p["did"]]
-                        neg = any(z["k"] == "UnaryOperator" and z.get("op") == "!" for z in ir.walk(cnd))
-                        t_, f_ = (fv, tv) if neg else (tv, fv)
-                        sh = [z for z in ir.walk(t_) if "callee" in z and z.get("member_call") and z["callee"]["name"] == "shadow" and ref_of(kids(z)[0]) == p["did"]]
-                        if fl and sh and any(z is y for z in ir.walk(f_)):
-                            handled = True
-                    if not handled and not surely_unflipped(a):
+                    st = unfl.before(y)
+                    if st is None:
+                        raise Undecidable("%s: read of %s.active() has no position in the CFG" % (cal.nloc(y), p["name"]))
+                    if not st:
                         bad = y
                 if bad is not None:
+                    # closed world: no condition examines the pointer in a form that is not understood, and the argument is the step's own pointer
+                    for bid, b in g.blocks.items():
+                        cn = cal.byid(b["cond"]) if b.get("cond") is not None else None
+                        if cn is None or polarity(cn) is not None:
+                            continue
+                        for z in ir.walk(cn):
+                            if "callee" not in z:
+                                continue
+                            for j, arg in enumerate(kids(z)):
+                                r = resolve(cal, arg)
+                                if r is not None and r["k"] == "DeclRefExpr" and r["ref"]["id"] == pd and \
+                                        not (z.get("member_call") and j == 0 and z["callee"]["name"] in PTR_PURE):
+                                    raise Undecidable("%s: a condition examines %s through %s(); whether it tests flipped() is not known"
+                                                      % (cal.nloc(z), p["name"], z["callee"]["name"]))
+                    if not own_pointer(root, a):
+                        raise Undecidable("%s: the pointer handed to %s() (%s) is neither the step's own pointer nor a copy_back() result" % (root.nloc(c), cal.name, dtable.describe(a)))
                     ck.violation("RESULT-ARRAY", cal.qname, "%s:%s" % (cal.name, root.name),
                                  "%s() runs after the sub-sorts have copied their buckets home and reads the strings through %s.active(); the step's pointer (%s) "
                                  "is flipped when the step sorts a bucket that lives in the shadow array, the sorted strings are then in %s.shadow(): the values "
                                  "computed here (LCPs at the bucket boundaries) come from stale strings" % (cal.name, p["name"], dtable.describe(a), p["name"]), cal.nloc(bad))
-                else:
-                    ck.ok("RESULT-ARRAY", tag, "reads the original array (flipped ? shadow() : active()) or gets a surely unflipped pointer")
+                    continue
+                sh = [z for z in cal.nodes() if on_p(z, "shadow") and flp.before(z)]
+                if not sh:
+                    raise Undecidable("%s: %s.active() is read only where flipped() is false, but no read of %s.shadow() under flipped() is found"
+                                      % (cal.nloc(reads[0]), p["name"], p["name"]))
+                ck.ok("RESULT-ARRAY", tag, "reads the original array (flipped ? shadow() : active()) or gets a surely unflipped pointer")
     ck.require(n >= 2, "no after-recursion reader of a shadow pointer found")
+
+
+# ---------------------------------------------------------------------------------------------- PACKED-LCP-MASK
+def packed_uses(fn, e, flag, value_mask, depth=0):
+    """how the packed byte read by expression e is used: list of (verdict, detail, node), verdict 'ok' | 'bad' | 'unknown' | 'write'"""
+    par = fn.parent(e)
+    while par is not None and par["k"] in WRAPPERS and par.get("cast") not in ("ToVoid", "IntegralToBoolean"):
+        e, par = par, fn.parent(par)
+    if par is None:
+        return [("unknown", "no parent", e)]
+    k = par["k"]
+    if k in WRAPPERS:
+        if par.get("cast") == "ToVoid":
+            return [("ok", "discarded", par)]
+        return [("bad", None, par)]       # the whole byte as a truth value
+    if k in ("BinaryOperator", "CompoundAssignOperator") and len(kids(par)) == 2:
+        op = par.get("op")
+        l, r = kids(par)
+        on_left = l is e
+        c = const_int(r if on_left else l)
+        if op in ASSIGN_OPS and on_left:
+            return [("write", None, par)]
+        if op == "&":
+            if c is None:
+                return [("unknown", "masked with a value that is not a constant", par)]
+            m = c & 0xFF
+            return [("ok", m, par)] if m in (flag, value_mask) else [("bad", m, par)]
+        top = flag == value_mask + 1 and (flag & value_mask) == 0
+        if top and c is not None:
+            if on_left and ((op == "%" and c == flag) or (op in (">=", "<") and c == flag) or (op in (">", "<=") and c == value_mask)):
+                return [("ok", value_mask if op == "%" else flag, par)]
+            if not on_left and ((op in ("<=", ">") and c == flag) or (op in ("<", ">=") and c == value_mask)):
+                return [("ok", flag, par)]
+            if on_left and op == ">>" and (flag >> c) == 1:
+                return [("ok", flag, par)]
+        if op in ("+", "-", "*", "/", "%", "<<", ">>", "|", "^", "==", "!=", "<", ">", "<=", ">=", "+=", "-=", "|=", "&&", "||", ","):
+            if op == "," and on_left:
+                return [("ok", "discarded", par)]
+            return [("bad", None, par)]
+        return [("unknown", "operator %s" % op, par)]
+    if k == "UnaryOperator" and par.get("op") in ("!", "-", "~"):
+        return [("bad", None, par)]
+    if k in ("ArraySubscriptExpr",):
+        return [("bad", None, par)]
+    if k in ("IfStmt", "WhileStmt", "DoStmt", "ForStmt", "ConditionalOperator") and (kids(par)[1 if k in ("DoStmt", "ForStmt") else 0] is e):
+        return [("bad", None, par)]
+    if k in ("CompoundStmt",):
+        return [("ok", "discarded", par)]
+    if k == "VarDecl":
+        if stable_local(fn, par["did"]) is None or depth > 4:
+            return [("unknown", "stored in a local that is written again", par)]
+        out = []
+        for u in uses_of(fn, par["did"]):
+            out += packed_uses(fn, u, flag, value_mask, depth + 1)
+        return out
+    if "callee" in par:
+        return [("unknown", "handed to %s()" % par["callee"]["name"], par)]
+    return [("unknown", k, par)]
 
 
 def check_packed_lcp(ck, tu):
@@ -367,22 +1480,33 @@ def check_packed_lcp(ck, tu):
             if not b:
                 continue
             d = match.deref_of(b[1])
-            if d is None:
+            ip = match.index_parts(b[1]) if d is None else None
+            tgt_root = d if d is not None else (ip[0] if ip else None)
+            if tgt_root is None:
                 continue
-            tgt = [x for x in ir.walk(d) if x["k"] == "MemberExpr" and x.get("member", "").startswith("lcp")]
+            tgt = [x for x in ir.walk(tgt_root) if x["k"] == "MemberExpr" and x.get("member", "").startswith("lcp")]
             if not tgt:
                 continue
-            orr = match.binop(b[2], ("|",))
+            orr = match.binop(resolve(fn, b[2]), ("|",))
             if not orr:
                 continue
             n_writes += 1
             for side in orr[1:]:
-                for x in ir.walk(side):
+                for x in ir.walk(resolve(fn, side)):
                     if x["k"] == "ConditionalOperator":
                         for br in kids(x)[1:]:
                             c = const_int(br)
                             if c:
                                 flags.add(c)
+                    elif x["k"] == "DeclRefExpr":
+                        rx = resolve(fn, x)
+                        if rx is not x and rx is not None:
+                            for y in ir.walk(rx):
+                                if y["k"] == "ConditionalOperator":
+                                    for br in kids(y)[1:]:
+                                        c = const_int(br)
+                                        if c:
+                                            flags.add(c)
     if not n_writes or len(flags) != 1:
         raise ir.AnalysisBroken("packing of the splitter LCP byte not recognised in the tree builders (flags %s)" % sorted(flags))
     flag = flags.pop()
@@ -394,8 +1518,8 @@ def check_packed_lcp(ck, tu):
             continue
         for z in fn.nodes():
             if "callee" in z and z["callee"]["name"] == "build" and z.get("member_call") and len(kids(z)) >= 4:
-                a = strip_casts(kids(z)[3])
-                if a["k"] == "MemberExpr":
+                a = resolve(fn, kids(z)[3])
+                if a is not None and a["k"] == "MemberExpr":
                     packed.add(a["member"])
     if not packed:
         raise ir.AnalysisBroken("no array is handed to classifier.build() as LCP table")
@@ -409,30 +1533,29 @@ def check_packed_lcp(ck, tu):
             base = strip_casts(kids(z)[0])
             if base["k"] != "MemberExpr" or base.get("member") not in packed:
                 continue
-            par = fn.parent(z)
-            while par is not None and par["k"] in ("ImplicitCastExpr", "ParenExpr", "CStyleCastExpr", "CXXStaticCastExpr", "CXXFunctionalCastExpr"):
-                par = fn.parent(par)
-            if par is not None and par["k"] in ("BinaryOperator", "CompoundAssignOperator") and par.get("op") in ("=", "&=", "|=") and \
-                    any(x is z for x in ir.walk(kids(par)[0])):
+            uses = packed_uses(fn, z, flag, value_mask)
+            if uses and all(u[0] == "write" for u in uses):
                 continue        # a write
             n += 1
-            mask = None
-            if par is not None and par["k"] == "BinaryOperator" and par.get("op") == "&":
-                for side in kids(par):
-                    c = const_int(side)
-                    if c is not None and not any(x is z for x in ir.walk(side)):
-                        mask = c
             tag = "%s [%s]" % (fn.name, inst(fn))
-            if mask not in (flag, value_mask):
+            bad = [u for u in uses if u[0] == "bad"]
+            unk = [u for u in uses if u[0] == "unknown"]
+            if bad:
+                mask = bad[0][1]
                 ck.violation("PACKED-LCP-MASK", fn.qname, "%s:%s" % (fn.name, base["member"]),
                              "%s[...] packs the splitter LCP (low bits) with the 0x%02X flag `splitter ends inside the key`; it is used here %s, so a flagged "
                              "splitter adds %d to the depth handed on" % (base["member"], flag, "unmasked" if mask is None else "with mask 0x%02X" % mask, flag),
                              fn.nloc(z))
+            elif unk:
+                raise Undecidable("%s: the packed byte %s[...] is used in a form that is not understood (%s); cannot tell whether it is masked"
+                                  % (fn.nloc(unk[0][2]), base["member"], unk[0][1]))
             else:
-                ck.ok("PACKED-LCP-MASK", tag, "%s & 0x%02X" % (base["member"], mask), nontrivial=False)
+                masks = [u[1] for u in uses if u[0] == "ok" and isinstance(u[1], int)]
+                ck.ok("PACKED-LCP-MASK", tag, "%s & 0x%02X" % (base["member"], masks[0] if masks else value_mask), nontrivial=False)
     return n
 
 
+# ---------------------------------------------------------------------------------------------- STALE-DATA-POINTER
 INVALIDATING = ("resize", "destroy", "clear", "reserve", "shrink_to_fit", "swap", "push_back", "emplace_back", "assign", "operator=")
 
 
@@ -453,11 +1576,11 @@ def check_stale_data_pointer(ck, tu):
                 if "callee" not in z:
                     continue
                 if z.get("member_call") and z["callee"]["name"] in INVALIDATING and kids(z):
-                    m = match.this_field(kids(z)[0])
+                    m = field_r(fn, kids(z)[0])
                     if m:
                         inv.add(m)
                 if z["k"] == "CXXOperatorCallExpr" and z.get("op") == "=" and kids(z):
-                    m = match.this_field(kids(z)[0])
+                    m = field_r(fn, kids(z)[0])
                     if m:
                         inv.add(m)
                 if z.get("member_call") and kids(z) and strip_casts(kids(z)[0])["k"] == "This":
@@ -478,20 +1601,31 @@ def check_stale_data_pointer(ck, tu):
                 if v["k"] != "VarDecl" or not kids(v) or "*" not in (v.get("ty") or ""):
                     continue
                 src = [z for z in ir.walk(kids(v)[0]) if "callee" in z and z.get("member_call") and z["callee"]["name"] in ("data", "begin")
-                       and kids(z) and match.this_field(kids(z)[0])]
+                       and kids(z) and field_r(fn, kids(z)[0])]
                 if not src:
                     continue
-                member = match.this_field(kids(src[0])[0])
+                member = field_r(fn, kids(src[0])[0])
                 n += 1
                 if g is None:
                     g = cfgm.CFG(fn)
                 pdecl = g.pos_deep(v)
-                uses = [z for z in fn.nodes() if z["k"] == "DeclRefExpr" and z["ref"]["id"] == v["did"]]
+                uses, kills = [], []
+                for z in uses_of(fn, v["did"]):
+                    # a plain re-assignment of the local gives it a fresh value: later uses see that one
+                    e, par = z, fn.parent(z)
+                    while par is not None and par["k"] in WRAPPERS:
+                        e, par = par, fn.parent(par)
+                    if par is not None and par["k"] == "BinaryOperator" and par.get("op") == "=" and kids(par)[0] is e:
+                        kp = g.pos_deep(par)
+                        if kp is not None:
+                            kills.append(kp)
+                        continue
+                    uses.append(z)
                 bad = None
                 for c in fn.nodes():
                     if "callee" not in c or not c.get("member_call") or not kids(c):
                         continue
-                    direct_inv = c["callee"]["name"] in INVALIDATING and match.this_field(kids(c)[0]) == member
+                    direct_inv = c["callee"]["name"] in INVALIDATING and field_r(fn, kids(c)[0]) == member
                     via = strip_casts(kids(c)[0])["k"] == "This" and member in summ.get(c["callee"]["did"], ())
                     if not (direct_inv or via):
                         continue
@@ -500,7 +1634,7 @@ def check_stale_data_pointer(ck, tu):
                         continue        # the buffer is (re)sized before the pointer is taken
                     for u in uses:
                         pu = g.pos_deep(u)
-                        if pu is not None and g.reachable(pc, pu):
+                        if pu is not None and g.path_between_avoiding(pc, pu, kills) is not None:
                             bad = (c, u)
                             break
                     if bad:
@@ -554,29 +1688,51 @@ def run(ck):
         "(distribute_finished, loop bound re-read after the last enqueue) and fixed. The ThreadPool itself is C10.")
     tu = ir.extract("witness/C04_parallel_sample_sort.cpp")
     for fn in tu.functions:
-        if not fn.record or fn.kind == "lambda":
+        fn.tu = tu
+    memo = {}
+
+    def lambdas_are_plain():
+        for fn in tu.functions:
+            if fn.kind == "lambda" and fn.body is not None and (fn.qname or "").startswith(NS):
+                for x in fn.nodes():
+                    if "callee" in x and (x["callee"]["name"] in ("substep_add", "substep_notify_done") or ctx_enqueue(x)):
+                        raise Undecidable("%s: a lambda registers / releases / enqueues sub-steps; the registration balance of its creator is not counted" % fn.nloc(x))
+    ck.guarded(lambdas_are_plain)
+    for fn in tu.functions:
+        if fn.record in (BIG, SMALL) and fn.kind not in ("lambda", "dtor") and fn.body is not None and fn.cfg:
+            try:
+                summary(tu, fn, memo)
+            except ir.AnalysisBroken:
+                pass        # raised again (and recorded) by the check of that function
+    for fn in tu.functions:
+        if not fn.record or fn.kind == "lambda" or fn.body is None:
             continue
         if fn.record in (BIG, SMALL, STEP):
             if fn.kind == "dtor":
                 continue
-            check_use_after_release(ck, tu, fn)
+            ck.guarded(lambda fn=fn: check_use_after_release(ck, tu, fn))
             if fn.record in (BIG, SMALL):
-                check_add_before_enqueue(ck, fn)
-            if fn.record == BIG and fn.name in ("sample", "count_finished"):
-                check_phase_arm(ck, fn)
-    check_rmw(ck, tu)
-    check_completion(ck, tu)
-    check_copy_back(ck, tu)
-    check_packed_lcp(ck, tu)
-    check_result_array(ck, tu)
-    check_stale_data_pointer(ck, tu)
-    ck.require(check_array_bounds(ck, tu) >= 10, "fixed-size arrays of the sample sort classes not found")
+                ck.guarded(lambda fn=fn: check_add_before_enqueue(ck, tu, fn, memo))
+            if fn.record == BIG:
+                ck.guarded(lambda fn=fn: check_phase_arm(ck, tu, fn))
+    def phase_arm_everywhere():
+        have = set(w.split("[")[-1].rstrip("]") for (r, w, ok, d) in ck.instances if r == "PHASE-ARM")
+        want = set(inst(fn) for fn in tu.functions if fn.record == BIG and fn.body is not None)
+        ck.require(want and want <= have, "no phase starter (pwork_ armed, jobs enqueued) found for PS5BigSortStep [%s" % ", ".join(sorted(want - have)))
+    ck.guarded(phase_arm_everywhere)
+    ck.guarded(lambda: check_rmw(ck, tu))
+    ck.guarded(lambda: check_completion(ck, tu))
+    ck.guarded(lambda: check_copy_back(ck, tu))
+    ck.guarded(lambda: check_packed_lcp(ck, tu))
+    ck.guarded(lambda: check_result_array(ck, tu))
+    ck.guarded(lambda: check_stale_data_pointer(ck, tu))
+    ck.guarded(lambda: ck.require(check_array_bounds(ck, tu) >= 10, "fixed-size arrays of the sample sort classes not found"))
     ck.floor("PACKED-LCP-MASK", 12)
     ck.floor("USE-AFTER-RELEASE", 40)
     ck.floor("ADD-BEFORE-ENQUEUE", 12)
     ck.floor("HANDLE-PAIR", 12)
-    ck.floor("RMW-RESULT", 10)
-    ck.floor("PHASE-ARM", 8)
+    ck.floor("RMW-RESULT", 6)       # per instance: >= 4 x the phase decrement (checked per instance in check_rmw) + add/notify of PS5SortStep
+    ck.floor("PHASE-ARM", 4)        # per instance: >= 4 x one phase starter (sample()/count_finished() may share a helper)
     ck.floor("COMPLETION-BARRIER", 2)
     ck.floor("COPY-BACK", 8)
     ck.floor("RESULT-ARRAY", 2)
